@@ -31,6 +31,9 @@ CFGS = [dict(strategy='subquery', keyshape='str', names='default'),
         dict(strategy='subquery', keyshape='intstr', names='default'),
         # composite integer keys whose PRIMARY KEY constraint lists the columns in another order than the class
         # declares them (identity order != declaration order); mirror-image keys (1,2) / (2,1) are frequent
+        # composite keys of mixed types whose LAST column has a bind processor (Date, Boolean)
+        dict(strategy='subquery', keyshape='intdate', names='default'),
+        dict(strategy='validity', keyshape='strbool', names='default'),
         dict(strategy='subquery', keyshape='pkc', names='default'),
         dict(strategy='validity', keyshape='pkm', names='default')]
 
@@ -52,6 +55,10 @@ def gen_key(rng, cfg):
         return [rng.choice([0, 1, 2, -1, 10 ** 12, 7])]
     if cfg['keyshape'] in ('pkc', 'pkm'):
         return [rng.randint(1, 3), rng.randint(1, 3)]
+    if cfg['keyshape'] == 'intdate':
+        return [rng.randint(0, 3), rng.randint(1, 3)]            # the second part is the day of 2020-01-<d>
+    if cfg['keyshape'] == 'strbool':
+        return [rng.choice(['a', 'b', "it's"]), rng.choice([0, 1])]  # the second part is a Boolean
     return [rng.randint(1, 2), rand_str(rng)]
 
 
@@ -92,6 +99,12 @@ def build(cfg):
             attrs['id'] = sa.Column(sa.Unicode(400), primary_key=True)
         elif cfg['keyshape'] == 'int':
             attrs['id'] = sa.Column(sa.BigInteger, primary_key=True, autoincrement=False)
+        elif cfg['keyshape'] == 'intdate':
+            attrs['id1'] = sa.Column(sa.Integer, primary_key=True, autoincrement=False)
+            attrs['id2'] = sa.Column(sa.Date, primary_key=True)
+        elif cfg['keyshape'] == 'strbool':
+            attrs['id1'] = sa.Column(sa.Unicode(20), primary_key=True)
+            attrs['id2'] = sa.Column(sa.Boolean, primary_key=True)
         elif cfg['keyshape'] == 'pkc':
             attrs['id1'] = sa.Column(sa.Integer, autoincrement=False)
             attrs['id2'] = sa.Column(sa.Integer, autoincrement=False)
@@ -109,7 +122,17 @@ def build(cfg):
 
 
 def kcols(cfg):
-    return ['id1', 'id2'] if cfg['keyshape'] in ('intstr', 'pkc', 'pkm') else ['id']
+    return ['id1', 'id2'] if cfg['keyshape'] in ('intstr', 'pkc', 'pkm', 'intdate', 'strbool') else ['id']
+
+
+def dbkey(cfg, k):
+    """the key as the database types want it"""
+    if cfg['keyshape'] == 'intdate':
+        import datetime
+        return [k[0], datetime.date(2020, 1, k[1])]
+    if cfg['keyshape'] == 'strbool':
+        return [k[0], bool(k[1])]
+    return k
 
 
 def _observe(env, cfg, case):
@@ -124,20 +147,20 @@ def _observe(env, cfg, case):
     conn.execute(Article.__table__.delete())
     payload = []
     for r in case['rows']:
-        d = dict(zip(kc, case['keys'][r['k']]))
+        d = dict(zip(kc, dbkey(cfg, case['keys'][r['k']])))
         d[txc] = r['tx']
         d['operation_type'] = 0
         payload.append(d)
     if payload:
         conn.execute(vt.insert(), payload)
-    conn.execute(Article.__table__.insert(), [dict(zip(kc, k)) for k in case['keys']])
+    conn.execute(Article.__table__.insert(), [dict(zip(kc, dbkey(cfg, k))) for k in case['keys']])
     conn.commit()
     s = env.session()
     obs = []
     try:
         for ki, k in enumerate(case['keys']):
             # by column values, not by identity: the order of a composite identity is the mapper's, not ours
-            obj = s.query(Article).filter_by(**dict(zip(kc, k))).one()
+            obj = s.query(Article).filter_by(**dict(zip(kc, dbkey(cfg, k)))).one()
             vc = obj.versions.count()
             try:
                 cnt = count_versions(obj)
